@@ -241,7 +241,16 @@ class Run:
 
     def run_crosschecks(self, budget_s=120):
         t0 = time.time()
-        for ob_id, txt, res in self.crosschecks:
+        todo = self.crosschecks
+        cap = 160 if self.tier == "quick" else 1500
+        if len(todo) > cap:
+            # every sat/unknown answer, and a seeded sample of the unsat ones
+            keep = [c for c in todo if c[2] != "unsat"][:cap]
+            rest = [c for c in todo if c[2] == "unsat"]
+            self.rng.shuffle(rest)
+            todo = keep + rest[:max(0, cap - len(keep))]
+            self.cross_stats["sampled_out"] = self.cross_stats.get("sampled_out", 0) + len(self.crosschecks) - len(todo)
+        for ob_id, txt, res in todo:
             if time.time() - t0 > budget_s:
                 self.cross_stats["budget_exhausted"] = self.cross_stats.get("budget_exhausted", 0) + 1
                 break
